@@ -135,6 +135,7 @@ class FnReport:
         self.src_hash = ""
         self.discont = []
         self.models = []
+        self.abstracted = []
 
 
 class PropertyRun:
@@ -171,6 +172,7 @@ class PropertyRun:
                 per_fn[q] = (ex, obls)
                 rep.discont = sorted(set(ex.discont))[:40]
                 rep.models = sorted(ex.used_models)
+                rep.abstracted = [f"loop #{k} at line {ln} of {fq} abstracted (write set havocked, body not verified)" for fq, k, ln in ex.abstracted_loops]
                 self.trusted |= ex.used_models
                 if not any(o.kind != "cover" for o in obls):
                     rep.error = "zero obligations generated"
